@@ -18,8 +18,9 @@ pending" votes. The history of accepted inputs determines
 
 Histories outside the domain of the properties set `poisoned`; the specification then answers `any`:
 an empty-slot insertion under an unknown root or below the first known slot of its root (the API cannot
-reject it, it has no result), and a vote for Go's zero `NodeRef` (root 0, slot 0), which the vote store
-uses as its "no vote" sentinel.
+reject it, it has no result), a vote for Go's zero `NodeRef` (root 0, slot 0), which the vote store
+uses as its "no vote" sentinel, and the insertion of a block under a root that a vote still refers to although the
+node was pruned (a root identifies one block; the pruned block cannot come back as another one).
 -/
 namespace Zrnt.ForkChoice.Spec
 open Zrnt.ForkChoice
@@ -191,6 +192,10 @@ def processSlot (a : Abs) (parent : Root) (slot jE fE : Nat) : Abs :=
   | some first =>
     if slot < first then { a with poisoned := true } else a.addSlots parent first slot jE fE
 
+/-- some validator's latest vote is for a node of this root -/
+def refersTo (a : Abs) (root : Root) : Bool :=
+  a.votes.any (fun v => match v with | some l => l.target.root = root | none => false)
+
 def processBlock (a : Abs) (parent root : Root) (slot jE fE : Nat) : Abs × Bool :=
   if a.has ⟨slot, root⟩ then (a, true) else
   if a.known root then (a, true) else
@@ -198,6 +203,9 @@ def processBlock (a : Abs) (parent root : Root) (slot jE fE : Nat) : Abs × Bool
   | none => (a, false)
   | some first =>
     if first ≥ slot then (a, false) else
+    -- a root identifies one block: a root that a vote still refers to although it is not in the tree (it was pruned)
+    -- cannot come back as a different block
+    if a.refersTo root then ({ a with poisoned := true }, true) else
     let a1 := a.addSlots parent first slot jE fE
     let blockNode : SNode :=
       { ref := ⟨slot, root⟩, parentRoot := parent, tparent := some ⟨slot, parent⟩,
@@ -219,32 +227,53 @@ def processAttestation (a : Abs) (v : Nat) (root : Root) (slot : Nat) : Abs × B
 
 /-! ### checkpoints and pruning -/
 
-/-- The exact prune at `anchor`: the nodes that are not transition descendants of the anchor are dropped,
-each reported once, flagged canonical iff it is a transition ancestor of the head found from the anchor.
-With a sink failing at its `k`-th call the first `k` nodes (in insertion order) are dropped. Returns the new
-state, the successful reports, the failing report and whether the call succeeds. -/
+/-- `r` lies in the finalized subtree of `anchor`: it is the anchor or a transition descendant of it — except
+through a block at the anchor's own slot hanging from the anchor (it fills the slot that an empty-slot checkpoint
+node declares empty, so it conflicts with the checkpoint) -/
+def inFinalized (a : Abs) (anchor : NodeRef) : Nat → NodeRef → Bool
+  | 0, r => r = anchor
+  | fuel + 1, r =>
+    r = anchor ||
+    match a.find r with
+    | some n =>
+      (match n.tparent with
+       | some p => !(p = anchor && n.ref.slot = anchor.slot) && inFinalized a anchor fuel p
+       | none => false)
+    | none => false
+
+/-- The exact prune at `anchor`: the nodes outside the finalized subtree are dropped, each reported once (in
+insertion order), flagged canonical iff it is a transition ancestor of the anchor. If the sink fails at one of them
+nothing is dropped and the call fails (it can be repeated). The anchor loses its parents; a block that loses its
+fork-choice parent (a block on the finalized root after the checkpoint slot, when the checkpoint node is an
+empty-slot node) hangs from the first node left of its parent root: the anchor. Returns the new state, the successful reports, the failing report and whether the call succeeds. -/
 def prune (a : Abs) (anchor : NodeRef) : Abs × List (NodeRef × Bool) × Option (NodeRef × Bool) × Bool :=
   if !a.has anchor then (a, [], none, true) else
-  let dropped := a.nodes.filter (fun n => !a.tAncestorOrSelf anchor a.fuel n.ref)
-  if dropped.isEmpty then (a, [], none, true) else
-  match a.headFrom anchor with
-  | none => (a, [], none, false)
-  | some h =>
-    let reports := dropped.map (fun n => (n.ref, a.tAncestorOrSelf n.ref a.fuel h))
-    let (sent, failed) : List (NodeRef × Bool) × Option (NodeRef × Bool) :=
-      match a.sink with
-      | .absent => (reports, none)
-      | .recording => (reports, none)
-      | .failAt k => (reports.take k, reports[k]?)
-    let gone := sent.map (·.1)
-    let keep := a.nodes.filter (fun n => !gone.contains n.ref)
-    let fix (o : Option NodeRef) (isAnchor : Bool) : Option NodeRef :=
-      match o with
-      | some p => if gone.contains p then (if isAnchor then none else some anchor) else some p
+  let outside := a.nodes.filter (fun n => !a.inFinalized anchor a.fuel n.ref)
+  let reports := outside.map (fun n => (n.ref, a.tAncestorOrSelf n.ref a.fuel anchor))
+  let (sent, failed) : List (NodeRef × Bool) × Option (NodeRef × Bool) :=
+    match a.sink with
+    | .absent => (reports, none)
+    | .recording => (reports, none)
+    | .failAt k => (reports.take k, reports[k]?)
+  if failed.isSome then (a, sent, failed, false) else
+  let gone := reports.map (·.1)
+  if gone.isEmpty then (a, [], none, true) else
+  let keep := a.nodes.filter (fun n => !gone.contains n.ref)
+  let left : Abs := { a with nodes := keep }
+  let keep := keep.map (fun n =>
+    let tp := match n.tparent with | some p => if gone.contains p then none else some p | none => none
+    let fp := match n.fparent with
+      | some p =>
+        if gone.contains p then
+          (if n.isBlock then
+            match left.firstSlot n.parentRoot with
+            | some s => if s < n.ref.slot then some ⟨s, n.parentRoot⟩ else none
+            | none => none
+           else none)
+        else some p
       | none => none
-    let keep := keep.map (fun n =>
-      { n with tparent := fix n.tparent (n.ref = anchor), fparent := fix n.fparent (n.ref = anchor) })
-    ({ a with nodes := keep }, (if a.sink = .absent then [] else sent), failed, failed.isNone)
+    { n with tparent := tp, fparent := fp })
+  ({ a with nodes := keep }, (if a.sink = .absent then [] else sent), none, true)
 
 /-- `UpdateJustified` -/
 def updateJustified (a : Abs) (trigger : Root) (j f : Checkpoint) (balances : Option (List Nat)) :
